@@ -89,9 +89,17 @@ func nonOK(p *Prog) map[string]string {
 				out["ERROR:"+rn] = "error " + res.Err
 			}
 			if scope == "" && n < r.Floor || scope != "" && n == 0 {
-				out["ERROR:"+rn+":floor"] = fmt.Sprintf("error %d obligations < floor %d", n, r.Floor)
+				if r.Floor <= smallFloor && unm > 0 {
+					// explained by the instance already undecided
+				} else if r.Floor <= smallFloor {
+					n++
+					unm++
+					out[rn+":floor"] = "undecided"
+				} else {
+					out["ERROR:"+rn+":floor"] = fmt.Sprintf("error %d obligations < floor %d", n, r.Floor)
+				}
 			}
-			tooMany := n > 0 && unm >= 2 && unm*10 > n
+			tooMany := n > 0 && undecidedConstructs(obl) >= 2 && unm*10 > n
 			for _, o := range obl {
 				if o.Status == Unmodelled {
 					if tooMany {
